@@ -38,6 +38,8 @@ func main() {
 		}
 		b, _ := json.Marshal(cs)
 		fmt.Println(string(b))
+	case "findcollisions":
+		os.Exit(findCollisionsMain(os.Args[2:]))
 	case "findshape":
 		os.Exit(findShapeMain(os.Args[2:]))
 	case "list":
